@@ -397,6 +397,94 @@ def cc_crosscheck(ctx, n):
     ctx.cell("c-compiler")
 
 
+def length_expressions(ctx, rng, n):
+    """Expressions where the library actually evaluates them with a field context: as the length of an array member, in
+    one and two dimensions (`d[expr]`, `rows[EOF][expr]`, `rows[2][expr]`, `rows[m][expr]`), over preceding fields,
+    `sizeof(...)` operands anywhere in the text and constants -- half of the cases with constants named like the fields
+    (the field wins).  The number of entries must be max(0, value) as the reference evaluator computes it."""
+    import io
+
+    def term(names):
+        x = rng.random()
+        if x < 0.4:
+            return rng.choice(names)
+        if x < 0.65:
+            return rng.choice(["sizeof(uint16)", "sizeof(uint8)", "sizeof(unsigned int)", "sizeof( uint32 )", "sizeof(unsigned long long)"])
+        return rng.choice(["1", "2", "3", "0x2", "KC"])
+
+    def expr(names, depth):
+        if depth == 0:
+            return term(names)
+        x = rng.random()
+        if x < 0.3:
+            return f"({expr(names, depth - 1)})"
+        sp = rng.choice(["", " "])
+        return f"{expr(names, depth - 1)}{sp}{rng.choice(['+', '*', '-', '&', '|', '+', '*', '>>', '^'])}{sp}{expr(names, depth - 1)}"
+
+    for it in range(n):
+        names = ["n", "m"]
+        text_e = expr(names, rng.randint(1, 3))
+        shadow = rng.random() < 0.5
+        consts = {"KC": rng.randint(0, 3)}
+        if shadow:
+            consts.update({"n": rng.randint(0, 4), "m": rng.randint(0, 4)})
+        pre = "".join(f"#define {k} {v}\n" for k, v in consts.items())
+        form = rng.choice(["flat", "flat", "eof-rows", "fixed-rows", "counted-rows"])
+        endian, compiled = rng.choice("<>"), rng.random() < 0.5
+        body = {"flat": f"uint8 d[{text_e}]; uint8 t;", "eof-rows": f"uint8 rows[EOF][{text_e}];",
+                "fixed-rows": f"uint8 rows[2][{text_e}]; uint8 t;", "counted-rows": f"uint8 rows[m][{text_e}]; uint8 t;"}[form]
+        text = pre + f"struct S {{ uint8 n; uint8 m; {body} }};"
+        det = {"workload": "length-expressions", "text": text, "expr": text_e, "form": form, "endian": endian, "compiled": compiled}
+        try:
+            cs = lib.load(text, endian, False, compiled)
+        except Exception as e:  # noqa: BLE001
+            ctx.violation("in-situ", f"length-expression:definition-refused:{type(e).__name__}", dict(det, error=lib.exc_sig(e)))
+            continue
+        for _ in range(4):
+            context = {"n": rng.randint(0, 5), "m": rng.randint(0, 5)}
+            try:
+                want, flags = refexpr.evaluate(text_e, context, consts, sizeof)
+            except Exception:  # noqa: BLE001
+                ctx.event("length_expression_outside_reference")
+                continue
+            if flags or want is None:
+                # outside the domain in which C and the statement agree (negative shift counts, ...)
+                ctx.event("length_expression_outside_reference")
+                continue
+            k = max(0, want)
+            if k > 64 or (form == "eof-rows" and k == 0):
+                ctx.event("length_expression_value_not_used")
+                continue
+            rows = {"flat": 1, "eof-rows": 3, "fixed-rows": 2, "counted-rows": context["m"]}[form]
+            payload = bytes(rng.randrange(1, 256) for _ in range(rows * k))
+            data = bytes([context["n"], context["m"]]) + payload + (b"" if form == "eof-rows" else b"\xEE\x77")
+            ctx.evaluation(("length-expression", text, repr(context)))
+            ctx.cell(f"length-expression:{form}")
+            if "sizeof" in text_e and ")" in text_e.split("sizeof", 1)[1].split(")", 1)[1] and any(nm in text_e.split("sizeof", 1)[1] for nm in names):
+                ctx.cell("length-expression:name-between-sizeof-and-a-later-parenthesis")
+            try:
+                st = io.BytesIO(data)
+                o = cs.S(st)
+                if form == "flat":
+                    got = (list(o.d), o.t, st.tell())
+                    exp = (list(payload), 0xEE, 3 + k)
+                elif form == "eof-rows":
+                    got = ([list(r) for r in o.rows], st.tell())
+                    exp = ([list(payload[i * k:(i + 1) * k]) for i in range(rows)], len(data))
+                else:
+                    got = ([list(r) for r in o.rows], o.t, st.tell())
+                    exp = ([list(payload[i * k:(i + 1) * k]) for i in range(rows)], 0xEE, 3 + rows * k)
+            except Exception as e:  # noqa: BLE001
+                ctx.violation("in-situ", f"length-expression:parse-raises:{type(e).__name__}",
+                              dict(det, context=context, consts=consts, want=want, data=data.hex(), error=lib.exc_sig(e)))
+                continue
+            if got != exp:
+                ctx.violation("in-situ", "length-expression:entries-differ-from-the-reference-value",
+                              dict(det, context=context, consts=consts, want=want, data=data.hex(), got=repr(got)[:300]))
+            else:
+                ctx.event("length_expressions_checked")
+
+
 def run(ctx):
     mon = ExprMonitor(ctx)
     mon.install()
@@ -432,12 +520,16 @@ def run(ctx):
                     continue
                 engine.judge_parse(ctx, case, cfgd, cfg, cs2.T, inp, sig_prefix="in-situ:")
         ctx.cell("in-situ")
+        length_expressions(ctx, ctx.rng("length-expressions"), 60 if not ctx.thorough else 1500)
     finally:
         mon.uninstall()
 
 
 def replay(ctx, detail):
     print("record:", {k: v for k, v in detail.items() if k != "ast"})
+    if detail.get("workload") == "length-expressions":
+        length_expressions(ctx, ctx.rng("length-expressions"), 400)
+        return
     if "ast" in detail:
         case = engine.case_from_detail(detail)
         cfgd = detail["cfg"]
